@@ -176,6 +176,8 @@ def _job(job):
             P, Q = it
             r["P"], r["Q"] = P, Q
             a, b = cd.point(P), cd.point(Q)
+            if P == Q and (len(rows) % 2):      # every other time the SAME object on both sides
+                b = a
             if op == "add":
                 r["r"] = cd.proj(_safe(lambda: cm.add(a, b)))
             else:
